@@ -141,7 +141,25 @@ func funcAtoms(fn *ssa.Function) map[string]int {
 				}
 				r0 := x.Succs[0] == b || reach[x.Succs[0]][b]
 				r1 := x.Succs[1] == b || reach[x.Succs[1]][b]
-				if !(r0 && r1) {
+				if r0 && r1 {
+					continue
+				}
+				// only an arm of a branch that rejoins counts; code after an early exit ("if err != nil { return }") is not "under" that test
+				other := x.Succs[0]
+				if r0 {
+					other = x.Succs[1]
+				}
+				rejoin := false
+				for j := range reach[other] {
+					if j != b && reach[b][j] && !reach[j][x] {
+						rejoin = true
+						break
+					}
+				}
+				if other != b && reach[b][other] && !reach[other][x] {
+					rejoin = true
+				}
+				if rejoin {
 					d++
 				}
 			}
